@@ -22,6 +22,12 @@ TEXTS = {
     "C05": {"technique": "TLC-enumerated class lattice + TLA+ rational bounds on real Pool.JoinPool/ExitPool calls, plus join/exit step contracts on ABCI traces",
             "level": _LAT + "C05 bounds: all-asset join shares <= pro-rata of every asset joined; single-asset join (S+sh)/S <= ((r+a)/r)^(w/W); oracle-pool joins by value at oracle prices; exits <= pro-rata claim (by value for single-sided oracle exits); an exit never burns all shares nor takes a whole reserve; book-keeping of Pool after exit. Real MsgJoinPool/MsgExitPool in ABCI traces are checked for 'never empties the pool' and response consistency.",
             "note": _TB},
+    "C07": {"technique": "TLA+ step contracts on bond/unbond/borrow over real ABCI traces with interest accrual, TLC trace validation",
+            "level": _lvl("C07 contracts: shares minted by a bond <= amount/rate + 1, payout of an unbond <= shares*rate + 1 (so deposit-then-withdraw gains at most one share's worth), the redemption value of every lender whose holding did not change never falls by more than one share's worth across ANY step, and after every step that increased loan principal the loans are within 90 % of the vault value as the code evaluates it."),
+            "note": _TB},
+    "C13": {"technique": "TLA+ re-implementation of the reward accumulator (claimable per pool/denom/account in Dec mantissas) as invariant + step contracts, TLC trace validation",
+            "level": _lvl("C13: module balance >= sum of floor(claimable) for every bank-backed reward denom at every observation; only end-block distribution changes anybody's claimable (a new committer earns nothing retroactively); per block the total newly credited <= what moved into the module plus the pre-funded external-incentive amount of that block; a claim always succeeds and pays exactly the credited integer amount."),
+            "note": _TB},
     "C08": {"technique": "TLA+ state invariants over leveraged-LP positions + close step contract, TLC trace validation",
             "level": _lvl("C08 is the invariant pool.LeveragedLpAmount = sum of position LP amounts, position LP = shares committed at the position address, open counter = stored positions, nothing left committed at the address of a removed position; checked after every begin-block sweep, transaction and end-block of histories with opens, consolidations, partial/full closes, bot MsgClosePositions and price moves."),
             "note": _TB},
